@@ -11,7 +11,7 @@ IMPLEMENTED = ["C%02d" % i for i in range(1, 21)]
 V = "testing/synctest fake clock and durable-blocking rules of go1.26.8; the harness (run under -race by the C20 check)"
 CHECKS = {
     "C01": dict(cat="exploration", ref="5 (C01), 2 (V)",
-                technique="online invariant monitor at the API boundary (received minus release-started <= H after every receive) over the real disciplines stepped through generated operation scripts in synctest bubbles; real-clock atomic-counter monitor in the C20 runs",
+                technique="online invariant monitor at the API boundary (received minus release-started <= H after every receive) over the real disciplines stepped through generated operation scripts in synctest bubbles; real-clock atomic-counter monitor with H handler goroutines",
                 text="A single stepper goroutine in a virtual-time bubble drives the real, concurrently running discipline (v2, v1, both simple variants) through scripts that drain to quiescence without releasing, release in random groups/orders, add/remove inputs (v1); the in-flight count is conservative (never above the library's own), so every excess is a real violation. Held = no witness in the executions counted in the evidence.",
                 note=V + "; releases are issued from their own goroutines (H independent handlers is the documented model)."),
     "C02": dict(cat="exploration", ref="5 (C02), 2 (V, R)",
